@@ -75,6 +75,16 @@ fn clone_tick() {
     if boom { panic!("clone fuse") }
 }
 
+/// The payloads' order.  Leaf number `j` of an element (id = `tag * 8 + j`) is ordered by bit `j % 5` of the element's tag
+/// alone: two elements tie on most fields, so the natural order of a struct (derived `Ord`: lexicographic over the
+/// fields in declaration order) depends on every field and on their order — not on the first field only, as it would
+/// with ids compared as numbers.
+pub fn okey(id: u32) -> u32 { ((id / 8) >> ((id % 8) % 5)) & 1 }
+macro_rules! ord_by_okey { ($t:ty, $tick:expr) => {
+    impl Ord for $t { fn cmp(&self, o: &Self) -> std::cmp::Ordering { if $tick { cmp_tick(); } okey(self.ident()).cmp(&okey(o.ident())) } }
+    impl PartialOrd for $t { fn partial_cmp(&self, o: &Self) -> Option<std::cmp::Ordering> { Some(self.cmp(o)) } }
+} }
+
 pub trait Leaf: Sized {
     /// `z` zero-sized, `b` one byte, `s` 2..=1024 bytes, `l` > 1024 bytes, `h` heap-owning, `p` plain data without destructor
     const KIND: char;
@@ -86,7 +96,7 @@ pub trait Leaf: Sized {
 #[derive(Debug, PartialEq, Eq, Hash)]
 pub struct Tk<const N: usize> { pub id: u32, pad: [u8; N] }
 /// the user's `Ord` implementation: may be told to panic at its k-th call (`cmpfuse`)
-impl<const N: usize> Ord for Tk<N> { fn cmp(&self, o: &Self) -> std::cmp::Ordering { cmp_tick(); self.id.cmp(&o.id) } }
+impl<const N: usize> Ord for Tk<N> { fn cmp(&self, o: &Self) -> std::cmp::Ordering { cmp_tick(); okey(self.id).cmp(&okey(o.id)) } }
 impl<const N: usize> PartialOrd for Tk<N> { fn partial_cmp(&self, o: &Self) -> Option<std::cmp::Ordering> { Some(self.cmp(o)) } }
 impl<const N: usize> Tk<N> { pub fn new(id: u32) -> Self { created(id); Tk { id, pad: [0xAB; N] } } }
 impl<const N: usize> Drop for Tk<N> { fn drop(&mut self) { dropped(self.id) } }
@@ -100,8 +110,9 @@ impl<const N: usize> Leaf for Tk<N> {
 }
 
 /// one-byte payload (std growth class 8)
-#[derive(Debug, PartialEq, Eq, PartialOrd, Ord, Hash)]
+#[derive(Debug, PartialEq, Eq, Hash)]
 pub struct B1(pub u8);
+ord_by_okey!(B1, false);
 impl B1 { pub fn new(id: u32) -> Self { assert!(id < 256); created(id); B1(id as u8) } }
 impl Drop for B1 { fn drop(&mut self) { dropped(self.0 as u32) } }
 impl Clone for B1 {
@@ -132,8 +143,9 @@ impl Leaf for Z {
 /// heap-owning payload.  The box is deliberately leaked (never freed): a bitwise duplicate
 /// dropped twice is then counted by the ledger instead of being a double free, and reading
 /// the id of a duplicate is always defined.
-#[derive(Debug, PartialEq, Eq, PartialOrd, Ord, Hash)]
+#[derive(Debug, PartialEq, Eq, Hash)]
 pub struct Hp(pub std::mem::ManuallyDrop<Box<u32>>);
+ord_by_okey!(Hp, false);
 impl Hp { pub fn new(id: u32) -> Self { created(id); Hp(std::mem::ManuallyDrop::new(Box::new(id))) } }
 impl Drop for Hp { fn drop(&mut self) { dropped(**self.0) } }
 impl Clone for Hp {
@@ -146,8 +158,9 @@ impl Leaf for Hp {
 }
 
 /// plain data: no destructor, not tracked by the ledger (`needs_drop::<Pl>() == false`)
-#[derive(Debug, Clone, Copy, PartialEq, Eq, PartialOrd, Ord, Hash)]
+#[derive(Debug, Clone, Copy, PartialEq, Eq, Hash)]
 pub struct Pl(pub u32);
+ord_by_okey!(Pl, false);
 impl Leaf for Pl {
     const KIND: char = 'p';
     fn make(id: u32) -> Self { Pl(id) }
@@ -156,8 +169,9 @@ impl Leaf for Pl {
 
 /// plain data with a user-written `Clone` (the clone fuse applies) but no destructor and not `Copy`:
 /// a struct made of these has no drop glue at all (`needs_drop == false`)
-#[derive(Debug, PartialEq, Eq, PartialOrd, Ord, Hash)]
+#[derive(Debug, PartialEq, Eq, Hash)]
 pub struct Pc(pub u32);
+ord_by_okey!(Pc, false);
 impl Clone for Pc { fn clone(&self) -> Self { clone_tick(); Pc(self.0) } }
 impl Leaf for Pc {
     const KIND: char = 'p';
